@@ -318,10 +318,29 @@ Definition dispatch_calendar (name : string) (a : list tok) : option (list tok *
                          else if (t =? 4) && negb (spec_delta_utc v =? spec_delta_utc r) then nospec
                          else sdur r ++ [TZ t]
             | None => nospec end)
+  (* next / previous such weekday, then the time of day set to h:00:00 the way with_hms_strict does (whole days of the count kept) *)
   | "next_at"%string, [TZ c; TZ n; TZ t; TZ w; TZ h] =>
-      let t := norm_ts t in Some (topt tepoch (next_weekday_at (mk_epoch c n t) (w mod 7) h), nospec)
+      let t := norm_ts t in let w := w mod 7 in let v := pval c n in
+      Some (topt tepoch (next_weekday_at (mk_epoch c n t) w h),
+            match sweekday_tai t v with
+            | Some wd => let k := (w - wd - 1) mod 7 + 1 in
+                         let r := v + k * NS_PER_DAY in
+                         if negb (in_rangev r) then nospec
+                         else if (t =? 4) && negb (spec_delta_utc v =? spec_delta_utc r) then nospec
+                         else let r2 := Z.abs r / NS_PER_DAY * NS_PER_DAY + h * 3600 * NS_PER_S in
+                              sdur (clamp (if r <? 0 then - r2 else r2)) ++ [TZ t]
+            | None => nospec end)
   | "prev_at"%string, [TZ c; TZ n; TZ t; TZ w; TZ h] =>
-      let t := norm_ts t in Some (topt tepoch (previous_weekday_at (mk_epoch c n t) (w mod 7) h), nospec)
+      let t := norm_ts t in let w := w mod 7 in let v := pval c n in
+      Some (topt tepoch (previous_weekday_at (mk_epoch c n t) w h),
+            match sweekday_tai t v with
+            | Some wd => let k := (wd - w - 1) mod 7 + 1 in
+                         let r := v - k * NS_PER_DAY in
+                         if negb (in_rangev r) then nospec
+                         else if (t =? 4) && negb (spec_delta_utc v =? spec_delta_utc r) then nospec
+                         else let r2 := Z.abs r / NS_PER_DAY * NS_PER_DAY + h * 3600 * NS_PER_S in
+                              sdur (clamp (if r <? 0 then - r2 else r2)) ++ [TZ t]
+            | None => nospec end)
   | "with_hms"%string, [TZ c; TZ n; TZ t; TZ h; TZ m; TZ s] =>
       let t := norm_ts t in let v := pval c n in
       Some (tepoch (with_hms_strict (mk_epoch c n t) h m s),
